@@ -48,6 +48,7 @@ FORMS = [
     ('cell', 'A1'), ('abs', '$B$2'), ('mixed', 'C$3'), ('own-sheet', 'S!D1'), ('quoted-sheet', "'Sheet 2'!B2"),
     ('range', 'SUM(A1:B2)'), ('range-tall', 'SUM(B2:B4)'), ('range-abs', 'SUM($C$1:$D$2)'),
     ('range-other', "SUM('Sheet 2'!A1:B2)"), ('intersect', 'SUM(A1:B3 B2:C4)'), ('intersect-cell', 'SUM(A1:C1 B1:B4)'),
+    ('intersect-blank', 'SUM(A4:D4 D1:D4)'), ('intersect-row-col', 'SUM(2:2 C:C)'), ('paren-multi-colon', 'SUM((A1:B2):C3)'),
     ('union', 'SUM(A1:A2,C1:C2)'), ('multi-colon', 'SUM(A1:A2:B3)'), ('name-cell', 'nm'), ('name-range', 'SUM(rg)'),
     ('name-other', 'on2'), ('name-range-other', 'SUM(rg2)'), ('col', 'SUM(A:A)'), ('row', 'SUM(2:2)'),
     ('cols', 'SUM(B:C)'), ('col-other', "SUM('Sheet 2'!D:D)"), ('row-fn', 'ROW()'), ('row-ref', 'ROW(B3)'),
@@ -70,6 +71,28 @@ def addr_cells(addr_str):
             return {f'{sh}!{c}' for row in W.range_cells(ref) for c in row}
         return None
     return {f'{sh}!{ref}'} if W.CELL_RE.match(ref) else None
+
+
+def unbounded_contains(declared, cells):
+    """declared like 'S!C:C' / 'S!2:2' / 'S!B:C' (whole columns / rows) contains all `cells`"""
+    sh, ref = W.split_addr(declared)
+    if ':' not in ref:
+        return False
+    a, b = ref.replace('$', '').split(':')
+    for c in cells:
+        csh, cref = W.split_addr(c)
+        col, row = W.cell_rc(cref)
+        if csh != sh:
+            return False
+        if a.isdigit() and b.isdigit():
+            if not int(a) <= row <= int(b):
+                return False
+        elif a.isalpha() and b.isalpha():
+            if not W.column_index_from_string(a) <= col <= W.column_index_from_string(b):
+                return False
+        else:
+            return False
+    return True
 
 
 def run_formula(name, text, env, acc, do_consequence):
@@ -113,6 +136,9 @@ def run_formula(name, text, env, acc, do_consequence):
                 if cells and dc and cells <= dc:
                     ok_decl = True
                     break
+                if cells and dc is None and unbounded_contains(d, cells):
+                    ok_decl = True
+                    break
         if not ok_decl:
             acc.violation(dict(case, verdict='read-not-declared', reader=raddr, read=addr, declared=declared),
                           f'={text}: {raddr} read {addr}, which is not among its declared precedents {declared}')
@@ -129,6 +155,9 @@ def run_formula(name, text, env, acc, do_consequence):
             for pred in g.predecessors(rn):
                 pc = addr_cells(pred.address.address)
                 if cells and pc and cells <= pc:
+                    has_edge = True
+                    break
+                if cells and pc is None and unbounded_contains(pred.address.address, cells):
                     has_edge = True
                     break
         if not has_edge:
